@@ -754,6 +754,35 @@ func boundaryFamily() []nsx.Input {
 	return out
 }
 
+var soupTokens = []string{"vars", "{", "}", "(", ")", "[", "]", "send", "source", "destination", "=", "max", "from", "to", "kept",
+	"remaining", "allowing overdraft up to", "allowing unbounded overdraft", "save", "print", "fail", "set_tx_meta", "set_account_meta",
+	"meta", "balance", "account", "monetary", "portion", "number", "string", "asset", "@a", "@world", "@x:y", "$v", "$w", "USD", "EUR/2",
+	"1/2", "50%", "1/0", "100%", "0", "7", "18446744073709551617", "\"k\"", "\"a b\"", ",", "+", "-", "*", "\n", "\n", "\n", "//c\n", "/*", "*/", "%", "\t", "\r\n"}
+
+func tokenSoup(g *vx.Rng) string {
+	var b strings.Builder
+	switch g.Intn(10) {
+	case 0: // raw bytes
+		n := g.Intn(200)
+		for i := 0; i < n; i++ {
+			b.WriteByte(byte(g.Intn(256)))
+		}
+	case 1: // a valid skeleton with one token replaced
+		toks := strings.Fields("send [ USD 10 ] ( \n source = @a \n destination = @b \n )")
+		toks[g.Intn(len(toks))] = soupTokens[g.Intn(len(soupTokens))]
+		b.WriteString(strings.ReplaceAll(strings.Join(toks, " "), "\\n", "\n"))
+	default:
+		n := 1 + g.Intn(60)
+		for i := 0; i < n; i++ {
+			b.WriteString(soupTokens[g.Intn(len(soupTokens))])
+			if g.Chance(3, 4) {
+				b.WriteByte(' ')
+			}
+		}
+	}
+	return b.String()
+}
+
 func main() {
 	r := vx.Start("C08", "numscript")
 	r.Cases("From FL Require Import Numscript.Corr.\nClose Scope Z_scope.\nOpen Scope nat_scope.\n", "ncase", 250)
@@ -774,6 +803,20 @@ func main() {
 		N = 40000
 	}
 	g := vx.NewRng(r.Seed)
+	// malformed stream (C12, "every byte string"): token soups and random bytes through the real front end, compiler
+	// and, when they happen to compile, the machine; only {panic, time, error class} are observed
+	M := 1500
+	if r.Thorough() {
+		M = 60000
+	}
+	mg := vx.NewRng(r.Seed ^ 0xBAD)
+	for i := 0; i < M; i++ {
+		in := nsx.Input{Script: tokenSoup(mg), Vars: map[string]string{}, Balances: map[string]map[string]string{}, Meta: map[string]map[string]string{}, Note: "malformed"}
+		ob := observe(in)
+		oracles(r, in, nil, ob)
+		r.Count("malformed:" + ob.Stage)
+		r.Case("", in, in.Script, false)
+	}
 	fam := boundaryFamily()
 	for i, in := range fam {
 		// quick tier: a seeded third of the family; thorough: all of it
